@@ -190,7 +190,9 @@ example : Coherent ([exL, exI] ++ [exR]) := by unfold Coherent; decide
 /-- **admit_complete_partial.** A submission that parses, passes the leaf filters and is a valid linear path
 ending in, or directly below, the trusted pool is admitted — provided the named side conditions hold: no
 repeated certificate, distinct subjects, consistent authority key identifiers, `2·n + 2 ≤ 100` signature
-checks, only the last certificate trusted, records determined by their bytes. -/
+checks, a leaf followed by further certificates is not itself trusted, records determined by their bytes.  Submitted
+certificates other than the leaf may be members of the trusted pool (the chain may pass through a trusted
+intermediate or cross-certificate and go on to that certificate's own trusted issuer). -/
 theorem admit_complete_partial (roots : List Cert) (sigOK : SigOracle) (o : Opts) (l : Cert) (rest : List Cert)
     (hleaf : LeafOK o l) (hadm : Admissible roots sigOK (l :: rest)) (hs : SideConditions roots (l :: rest)) :
     ∃ p, validateChain roots sigOK o ((l :: rest).map some) = .ok p := by
@@ -220,9 +222,7 @@ theorem admit_complete_partial (roots : List Cert) (sigOK : SigOracle) (o : Opts
     · have hzmem : z ∈ l :: rest := List.mem_of_getLast? hz
       have hzr : z = r := hs.coherent z (List.mem_append_left _ hzmem) r (List.mem_append_right _ hr) hid
       subst hzr
-      have hnot : poolContains roots l = false := hs.onlyLastTrusted l (by
-        obtain ⟨y, ys, rfl⟩ := List.exists_cons_of_ne_nil hrest
-        simp [List.dropLast])
+      have hnot : poolContains roots l = false := hs.leafNotTrusted l rest rfl hrest
       let E : Env := ⟨roots, rest, sigOK⟩
       have htrack : OnTrack E (l :: rest) := by
         apply onTrack_of E hs.rootsPool hndRest hs.distinctSubjects (l :: rest) hl
@@ -239,38 +239,13 @@ theorem admit_complete_partial (roots : List Cert) (sigOK : SigOracle) (o : Opts
       exact validate_of_verify hleaf hv' hT (chainsEquivalent_of (by simp; omega) (Or.inl rfl) (by simp))
   cases hadm with
   | endsInPool r z hr hz hid hl hca => exact caseA r z hr hz hid hl hca
-  | belowPool r hr hl hca =>
-    by_cases hin : r.id ∈ (l :: rest).map (·.id)
-    · -- the issuing root is itself submitted: it can only be the last certificate
-      obtain ⟨c, hc, hcid⟩ := List.mem_map.1 hin
-      have hpc : poolContains roots c = true := poolContains_iff.2 ⟨r, hr, hcid.symm⟩
-      have hlast : (l :: rest).getLast? = some c := by
-        rcases mem_cases_head_inner_last (l :: rest) c hc with e | e | e
-        · -- c is the head
-          by_cases hrest : rest = []
-          · subst hrest; simpa using e
-          · exfalso
-            have : c ∈ (l :: rest).dropLast := by
-              obtain ⟨y, ys, rfl⟩ := List.exists_cons_of_ne_nil hrest
-              simp at e; subst e; simp [List.dropLast]
-            rw [hs.onlyLastTrusted c this] at hpc; cases hpc
-        · exfalso
-          have : c ∈ (l :: rest).dropLast := by
-            simp only [List.tail_cons] at e
-            cases rest with
-            | nil => simp at e
-            | cons y ys => simp only [List.dropLast_cons₂]; exact List.mem_cons_of_mem _ e
-          rw [hs.onlyLastTrusted c this] at hpc; cases hpc
-        · exact e
-      exact caseA r c hr hlast hcid (linked_prefix _ _ hl) (fun x hx => hca x (mem_of_mem_dropLast hx))
+  | belowPool r hr hin hl hca =>
+    have hin' : True := trivial
     · by_cases hc : poolContains roots l = true
       · by_cases hrest : rest = []
         · exact alone hc hrest
         · exfalso
-          have : l ∈ (l :: rest).dropLast := by
-            obtain ⟨y, ys, rfl⟩ := List.exists_cons_of_ne_nil hrest
-            simp [List.dropLast]
-          rw [hs.onlyLastTrusted l this] at hc; cases hc
+          rw [hs.leafNotTrusted l rest rfl hrest] at hc; cases hc
       · have hnot : poolContains roots l = false := by simpa using hc
         let E : Env := ⟨roots, rest, sigOK⟩
         have hndT : (([l] ++ (rest ++ [r])).map (·.id)).Nodup := by
@@ -303,9 +278,15 @@ theorem admit_complete_partial (roots : List Cert) (sigOK : SigOracle) (o : Opts
         exact validate_of_verify hleaf hv' hT (chainsEquivalent_of (by simp; omega) (Or.inr (by simp)) (by simp))
 
 example : SideConditions [exR] [exL, exI] ∧ Admissible [exR] exSig [exL, exI] ∧ LeafOK exOpts exL := by
-  refine ⟨⟨by decide, by decide, by unfold DistinctSubjects; decide, by unfold AkiConsistent; decide, by decide, by decide,
-    by unfold Coherent; decide⟩, ?_, (leafFilters_iff _ _).1 (by decide)⟩
-  exact .belowPool exR (by simp) ⟨⟨rfl, by decide⟩, ⟨rfl, by decide⟩, trivial⟩ (by intro x hx; simp at hx; subst hx; exact ⟨rfl, rfl⟩)
+  refine ⟨⟨by decide, by decide, by unfold DistinctSubjects; decide, by unfold AkiConsistent; decide, by decide,
+    (by intro l rest h _; cases h; decide), by unfold Coherent; decide⟩, ?_, (leafFilters_iff _ _).1 (by decide)⟩
+  exact .belowPool exR (by simp) (by decide) ⟨⟨rfl, by decide⟩, ⟨rfl, by decide⟩, trivial⟩ (by intro x hx; simp at hx; subst hx; exact ⟨rfl, rfl⟩)
+
+/-- The chain may pass through a trusted certificate: pool `{R, I}`, submission `[L, I, R]` is admitted as submitted. -/
+example : validateChain [exR, exI] exSig exOpts [some exL, some exI, some exR] = .ok [exL, exI, exR] := by decide
+example : SideConditions [exR, exI] [exL, exI, exR] := by
+  refine ⟨by decide, by decide, by unfold DistinctSubjects; decide, by unfold AkiConsistent; decide, by decide,
+    (by intro l rest h _; cases h; decide), by unfold Coherent; decide⟩
 
 /-! ## The NotAfter window (regenerated conditions) -/
 
